@@ -1783,7 +1783,7 @@ def regen_constants():
 class C17(Property):
     id = "C17"
     title = "Configuration loading is format-independent and agrees with encoding/json"
-    quick_cases = 600
+    quick_cases = 560
     model_targets = ["theories/C17/Check.vo", "theories/C17/KnownCheck.vo"]
     thorough_cases = 9000
     design_ref = "DESIGN.md §6/C17"
